@@ -598,6 +598,19 @@ func generate(rng *rand.Rand, steps int, profile string) ([]string, []string, ma
 			g.do("mode " + m)
 			g.mode = m
 			g.feat["mode-"+m] = true
+			if profile == "modes" && rng.Intn(3) == 0 {
+				// a replica marked as rebuilding (what a rebuild or a clone sets) still refuses a counter
+				// update and a snapshot removal unless it is RW
+				g.do("setrb 1")
+				g.do(fmt.Sprintf("setrev %d", 1+rng.Intn(500)))
+				g.do("meta")
+				if ch := g.chain(); len(ch) >= 3 {
+					g.do("mark " + ch[1].name)
+				}
+				g.do("setrb " + []string{"0", "1", "0"}[rng.Intn(3)])
+				g.do("setrb 0")
+				g.feat["marked-rebuilding"] = true
+			}
 		case "setrev":
 			g.do(fmt.Sprintf("setrev %d", 1+rng.Intn(500)))
 		case "ckpt":
